@@ -493,7 +493,7 @@ func (v *view) oracleC02() {
 	}
 	ok := okTerminal(t, v.single)
 	// a bare io.EOF from a unary call is never a legitimate outcome
-	if t.Op == "invoke" && t.Err.IsEOF() {
+	if t.Op == "invoke" && t.Err.IsEOF() && !v.cutBefore(t.RSeq) {
 		v.fail("C02", "unary-bare-EOF", "Invoke returned a bare io.EOF")
 	}
 	// always: success only if the handler succeeded and everything arrived
@@ -529,6 +529,13 @@ func (v *view) oracleC02() {
 
 	if v.clientSideFailure() {
 		return
+	}
+	for _, sd := range v.hSend {
+		if sd.Msg != nil && sd.Msg.Kind == 4 {
+			// a response that cannot be encoded: an error of any kind, or
+			// (transports that never encode) intact delivery, are both right
+			return
+		}
 	}
 	exp := expectedFrom(v.hReturn.Err)
 	if good, what := exp.matches(t.Err); !good {
